@@ -1,6 +1,6 @@
 """C20 configuration."""
 PROP = dict(
-    quick_n=600, thorough_n=20000,
+    quick_n=450, thorough_n=20000,
     trusted_base=[
         "arr.ai evaluation of a test file is outside the model: the result tree (tuples, arrays as Values()+offset with "
         "nil holes, dictionaries, leaf classes TrueSet / EmptySet / GenericSet / other / fails-to-evaluate) is the input of "
@@ -18,7 +18,10 @@ PROP = dict(
         "(unions of dict literals / sets of (@, @value) tuples; values under one key are of different classes); "
         "layouts up to 4 directory levels; file and directory names from pools probing the discovery rule (.x, _x, "
         "testdata, vendor, node_modules, names with spaces/dashes/dots/non-ASCII letters, upper-case suffix, .bak/~ "
-        "suffixes, hidden files, a directory named _test.arrai; targets: root, sub-directory, file, hidden, missing)",
+        "suffixes, hidden files, a directory named _test.arrai; targets: root, sub-directory, file, hidden, missing); "
+        "attribute names, string keys and file names include 2-, 3- and 4-byte characters, long names, spaces and quotes "
+        "(the report-rendering path - padding, sorting, summary - is executed by every case; a panic there is the observable); "
+        "number keys are small integers (Number.String switches to exponent notation from 1e6 on)",
         "display-only parts of the report (alignment, colours, wall time, messages) are not modelled",
         "attribute names that are empty or start with '.' are outside the path-rendering theorem (known finding "
         "KF-c20-dotted-attr-name); the verdict/count theorems hold for them too",
